@@ -238,7 +238,7 @@ func cmdCheck(args []string) {
 		*tier = "quick"
 	}
 	seed, _ := strconv.Atoi(os.Getenv("VERIF_SEED"))
-	timeout := 10
+	timeout := 6
 	if *tier == "thorough" {
 		timeout = 60
 	}
